@@ -41,6 +41,15 @@ args_big = st.fixed_dictionaries({}, optional={
 args_cancel = st.builds(
     lambda d, u, s: {"days": d, "hours": -24 * d, "seconds": s, "microseconds": u, "milliseconds": -(u // 1000)},
     st.integers(-1000, 1000), st.integers(-10**6, 10**6), st.sampled_from([0, 1, -1]))
+# years/months cancelled (exactly, or up to a small rest of either sign) by the other arguments: the native total is zero or tiny
+# while years/months are not - a boundary of its own
+args_ym_cancel = st.builds(
+    lambda y, mo, split, eps_d, eps_us, how: dict(
+        {"years": y, "months": mo},
+        **({"days": -(365 * y + 30 * mo) + eps_d, "microseconds": eps_us} if how == 0 else
+           {"weeks": -((365 * y + 30 * mo) // 7), "days": -((365 * y + 30 * mo) % 7) + eps_d, "microseconds": eps_us} if how == 1 else
+           {"days": -(365 * y + 30 * mo) + split + eps_d, "hours": -24 * split, "seconds": eps_us, "milliseconds": -1000 * eps_us})),
+    st.integers(-6, 6), st.integers(-80, 80), st.integers(-3, 3), st.sampled_from([0, 0, 1, -1]), st.sampled_from([0, 0, 1, -1, 500000]), st.integers(0, 2))
 args_huge = st.fixed_dictionaries({"days": st.integers(-999999000, 999999000)}, optional={"seconds": st.integers(-86399, 86399), "microseconds": st.integers(-999999, 999999)})
 
 COMP = ("weeks", "remaining_days", "hours", "minutes", "remaining_seconds", "microseconds")
@@ -54,7 +63,7 @@ class Normalise(Sub):
     rule = "non-trivial: mixed signs among the arguments, or a non-zero sub-second part with a negative total, or a carry across units"
 
     def strategy(self, ctx):
-        return st.one_of(args_small, args_small, args_big, args_cancel, args_huge)
+        return st.one_of(args_small, args_small, args_big, args_cancel, args_ym_cancel, args_huge)
 
     def check(self, case, ctx):
         kw = case
